@@ -80,6 +80,7 @@ inductive SRes
   | integrity       -- sqlite3.IntegrityError
   | overflow        -- OverflowError while binding
   | unmodelled
+  | fault (k : Kind) -- the call raised another sqlite3 error (collaborator fault, see `Prog.runInj`)
   deriving DecidableEq, Repr
 
 /-- effect of a statement whose parameters were bound, on the table content -/
@@ -160,6 +161,21 @@ def Prog.run : Prog α → Nat → Conn → Conn × Nat × Option α
   | .rollback _, 0, c => (c, 0, none)
   | .rollback k, n + 1, c => k.run n c.rollback
 
+/-- `run` with a collaborator fault: the `j`-th execute()/commit() call of this method (rollback() is
+not counted) raises an sqlite3 error of kind `kind` *instead of* doing anything – once; it is no call
+on the real connection, so it uses no fuel.  A raising `execute()` is handled by the method's own
+continuation (`SRes.fault`); `onCommit` is what the method does when `commit()` raises. -/
+def Prog.runInj (onCommit : Kind → Prog α) (kind : Kind) : Prog α → Nat → Nat → Conn → Conn × Nat × Option α
+  | .ret a, _, n, c => (c, n, some a)
+  | .exec _ k, 0, n, c => (k (.fault kind)).run n c
+  | .exec _ _, _ + 1, 0, c => (c, 0, none)
+  | .exec s k, j + 1, n + 1, c => (k (c.exec s).2).runInj onCommit kind j n (c.exec s).1
+  | .commit _, 0, n, c => (onCommit kind).run n c
+  | .commit _, _ + 1, 0, c => (c, 0, none)
+  | .commit k, j + 1, n + 1, c => k.runInj onCommit kind j n c.commit
+  | .rollback _, _, 0, c => (c, 0, none)
+  | .rollback k, j, n + 1, c => k.runInj onCommit kind j n c.rollback
+
 /-- number of `execute()`/`commit()` calls of a method from a given connection state -/
 def Prog.steps : Prog α → Conn → Nat
   | .ret _, _ => 0
@@ -183,6 +199,7 @@ def openP : Prog Res :=
 def excOf : SRes → Kind
   | .integrity => .integrity
   | .overflow => .overflow
+  | .fault k => k
   | _ => .internal
 
 /-- `next(self.cursor)` on the SELECT of the load path -/
@@ -203,10 +220,12 @@ def sessionsRes : SRes → Res
 
 def sessionsP : Prog Res := .exec .selectSessions fun r => .ret (sessionsRes r)
 
-/-- `except sqlite3.IntegrityError` around INSERT, UPDATE and commit -/
-def persistExc : SRes → Kind
-  | .integrity => .duplicateSeqNo
-  | r => excOf r
+/-- the two `except` clauses around INSERT, UPDATE and commit of `persist_msg`:
+`except sqlite3.IntegrityError` → DuplicateSeqNoError (no rollback: the transaction opened by the
+implicit BEGIN stays open, empty); `except Exception` → `rollback(); raise` (fix f5b31dd) -/
+def persistFail : SRes → Prog Res
+  | .integrity => .ret (.raised .duplicateSeqNo)
+  | r => .rollback (.ret (.raised (excOf r)))
 
 def persistP (msg : Bytes) (h : Handle) (dir : Dir) : Prog Res :=
   match findSeqNo msg with
@@ -216,8 +235,8 @@ def persistP (msg : Bytes) (h : Handle) (dir : Dir) : Prog Res :=
       | .done =>
         .exec (.updateCounter dir n h.key) fun
           | .done => .commit (.ret .none)
-          | r => .ret (.raised (persistExc r))
-      | r => .ret (.raised (persistExc r))
+          | r => persistFail r
+      | r => persistFail r
 
 def setSeqNumP (h : Handle) (out inn : Option Int) : Prog Res :=
   if out.any (· ≤ 0) then .ret (.set h (some .assertion))
@@ -268,6 +287,14 @@ def Op.prog : Op → Prog Res
   | .recover h dir lo hi => recoverP h dir lo hi
   | .recoverMsg h dir seq => recoverMsgP h dir seq
   | .getAll keys dir => getAllP keys dir
+
+/-- what a method does when its `commit()` raises: every writing method rolls back and re-raises
+(`except Exception: self.conn.rollback(); raise` – set_seq_num since 493a9a7, persist_msg and
+create_or_load since f5b31dd) -/
+def Op.commitFail : Op → Kind → Prog Res
+  | .setSeqNum h out inn, k =>
+    .rollback (.ret (.set { h with nextOut := effOut h out, nextIn := effIn h inn } (some k)))
+  | _, k => .rollback (.ret (.raised k))
 
 /-! ## a process: `Journaler(file)`, a list of method calls, death after `fuel` calls -/
 
